@@ -4,7 +4,7 @@
    (Inv_reachable); the per-handler theorems then hold in all of them.  Counters (request ids, stream ids) are
    unbounded in the model: the statements hold for histories with fewer than 2^32 requests / streams (DESIGN 10.8). *)
 From Coq Require Import String.
-From RML Require Import Model.Base Model.Amf0 Model.Chunk Model.Messages Model.Float Model.SessionCommon Model.Server Proofs.ServerProofs.
+From RML Require Import Model.Base Model.Amf0 Model.Chunk Model.Messages Model.Float Model.SessionCommon Model.Server Proofs.ServerProofs Proofs.ServerAccepted.
 Local Open Scope list_scope.
 Local Open Scope N_scope.
 
@@ -105,6 +105,20 @@ Theorem C09_ping_echo : forall s p clock ts,
   h_message s p clock = one_packet s (MUserControl PingResponse None None (Some ts)) clock 0 false false.
 Proof. exact ping_echo. Qed.
 
+(* the application name the events are tagged with is the one accepted LAST: accepting a registered connection request stores that
+   request's name whatever an earlier accepted request left behind (C09_publish_gate / C09_play_gate read it from there) *)
+Theorem C09_accept_connection_stores_app : forall s id app tr clock s' rs,
+  lookup id (sv_reqs s) = Some (RConnection app tr) -> server_accept s id clock = (s', ROk rs) ->
+  sv_app s' = Some app /\ sv_connected s' = true /\ (exists b, rs = [SPacket b false]) /\
+  sv_streams s' = sv_streams s /\ sv_next_stream s' = sv_next_stream s.
+Proof. exact accept_connection_stores_app. Qed.
+
+Theorem C09_accept_connection_failure_no_event : forall s id app tr clock s' e,
+  lookup id (sv_reqs s) = Some (RConnection app tr) -> server_accept s id clock = (s', RErr e) -> exists w, e = SWire w.
+Proof. exact accept_connection_failure_no_event. Qed.
+
+Print Assumptions C09_accept_connection_stores_app.
+Print Assumptions C09_accept_connection_failure_no_event.
 Print Assumptions C09_invariant_reachable.
 Print Assumptions C09_publish_gate.
 Print Assumptions C09_play_gate.
